@@ -91,6 +91,12 @@ add("C15", True, "E2-enum", "exploration",
     "Exhaustive over the stated alphabets only. Not enumerated: the RPC-over-DDS fields (service_instance_name, related_*_key, topic_aliases), which the decoder documents as not implemented and no constructor sets; security-only fields. Foreign parameters have 4-aligned lengths.",
     "5.15")
 
+add("C06", True, "E3-hostile", "exploration",
+    "bounded-exhaustive enumeration of boundary-alphabet products of every submessage's fields x protocol states, all truncations / byte substitutions of a valid corpus and contradictory DATAFRAG pairs, each input in a subprocess shard with address-space limit, watchdog and live-heap counting",
+    "About 120 000 inputs in the quick tier (thorough: ~1.5 million): HEARTBEAT/GAP/ACKNACK/NACKFRAG/DATA/DATAFRAG/HEARTBEATFRAG/INFO_*/unknown kinds with sequence numbers from {i64::MIN,-1,0,1..4,255..257,2^31-1,2^32,2^40,i64::MAX-1,i64::MAX}, counts, bitmap sizes with exact/missing words, fragment numbers and sizes, sample sizes up to u32::MAX, octetsToInlineQos, all 256 DATA flag bytes, inline-QoS parameter lengths, wrong octetsToNextHeader, matched/stranger source and matched/unmatched/unknown reader ids, in seven protocol states (fresh, after DATA, half-assembled fragmented sample, reader behind, after HEARTBEAT, writer with history, writer mid-repair), plus contradictory second DATAFRAGs for one sample and every truncation and four substitutions of every byte of seven valid messages. Raw bytes are produced by an own serializer and enter through MessageReceiver::handle_received_packet on both the receive side and the writer side; armed repair timers then fire. Per input: no panic, abort, hang (3 s watchdog), peak live-heap growth <= 256 KiB + 64 x input bytes, time <= 0.25 s, and afterwards a well-behaved second writer's DATA+HEARTBEAT is accepted and acknowledged and a well-behaved reader's request is answered.",
+    "Exhaustive over the stated alphabets only. One known finding is listed (reassembly buffer preallocation). Debug-assertions and overflow checks are on (as in the pinned suite).",
+    "5.6")
+
 NOT_YET = {}
 
 def main():
@@ -126,6 +132,7 @@ def main():
       "engines": [
         {"name":"E1-bfs","path":"/verif/harness/src/engine.rs","serves_properties":[k for k,v in C.items() if v[0] and v[1].startswith("E1")],"kind_free_text":"explicit-state breadth-first search in history-replay form over deterministic simulators of the real RustDDS objects (in-crate: /verif/harness/incrate)"},
         {"name":"E4-sched","path":"/verif/harness/incrate/sched.rs","serves_properties":[k for k,v in C.items() if v[0] and v[1].startswith("E4")],"kind_free_text":"cooperative scheduler over real OS threads with hand-placed scheduling points; stateless DFS with iterative pre-emption bounding (harness/src/c13.rs)"},
+        {"name":"E3-hostile","path":"/verif/harness/src/engine.rs","serves_properties":[k for k,v in C.items() if v[0] and v[1].startswith("E3")]+["C09"],"kind_free_text":"subprocess shards with RLIMIT_AS, per-case watchdog, crash survival and (C06) live-heap counting allocator"},
         {"name":"E2-enum","path":"/verif/harness/src/engine.rs","serves_properties":[k for k,v in C.items() if v[0] and v[1].startswith("E2")],"kind_free_text":"mixed-radix bounded-exhaustive enumeration of finite input alphabets against the real code"},
       ],
       "checks": checks,
